@@ -958,18 +958,52 @@ def each_preceded(fn, evA, evB, depth=2, _seen=()):
     return ok, n
 
 
-def flat_calls(fn, pred, depth=2, _seen=()):
-    """Calls satisfying pred in source order, with calls to repository helpers replaced by the helper's own matching
-    calls (straight-line helpers only contribute in order). Returns [(owner Func, call node)]."""
+class FlatCall:
+    """A call of interest found in fn or in a helper fn calls: `owner` is the function whose body holds `call`,
+    `anchor` the node of the ORIGINAL function that stands for it in ordering questions, `names` the parameter
+    substitution (helper parameter -> rendering of the caller's argument) to pass to render()."""
+    __slots__ = ('owner', 'call', 'anchor', 'names')
+
+    def __init__(self, owner, call, anchor, names):
+        self.owner, self.call, self.anchor, self.names = owner, call, anchor, names
+
+    def arg(self, i):
+        return render(self.owner, self.call['args'][i], names=self.names)
+
+
+def param_names(fn, call, g, names=None):
+    """{did of g's parameter: rendering of the argument passed at `call` in fn}."""
+    out = {}
+    for p, a in zip(g.d.get('params', []), call.get('args', [])):
+        if p.get('did') is not None:
+            out[p['did']] = render(fn, a, names=names)
+    return out
+
+
+def flat_calls(fn, pred, depth=2, _seen=(), _anchor=None, _names=None):
+    """Calls satisfying pred in source order, with calls to repository helpers (own object / free functions that do
+    not satisfy pred themselves) replaced by the helper's own matching calls. Returns [FlatCall]."""
     out = []
-    for c in fn.calls():
+    for c in sorted(fn.calls(), key=lambda c: (c.get('l', 0), c.get('i', 0))):
         if pred(fn, c):
-            out.append((fn, c))
+            out.append(FlatCall(fn, c, _anchor if _anchor is not None else c, _names))
             continue
         g = is_helper_call(fn, c)
         if g is not None and depth > 0 and g.usr != fn.usr and g.usr not in _seen:
-            out.extend(flat_calls(g, pred, depth - 1, _seen + (fn.usr,)))
+            out.extend(flat_calls(g, pred, depth - 1, _seen + (fn.usr,), _anchor if _anchor is not None else c, param_names(fn, c, g, _names)))
     return out
+
+
+def flat_ordered(fn, fcs):
+    """Are the FlatCalls evaluated in list order (consecutive pairs: same owner -> dominance inside the owner, else
+    dominance of their anchors in fn)?"""
+    for a, b in zip(fcs, fcs[1:]):
+        if a.owner is b.owner and a.anchor is b.anchor:
+            if not precedes(a.owner, a.call, b.call):
+                return False
+        elif not precedes(fn, a.anchor, b.anchor) or a.anchor is b.anchor:
+            return False
+    return True
 
 
 def completion_targets(fn, closure):
@@ -987,3 +1021,48 @@ def completion_targets(fn, closure):
                     out.append(calls[0]['usr'])
                 break
     return out
+
+
+def leaves_function(fn, stmt):
+    """Statements in `stmt` that leave the function: throw, return, or a call the CFG marks as not returning (a
+    [[noreturn]] helper). Used by rules of the form "the failing branch exits"."""
+    out = []
+    for x in walk(stmt):
+        if x['k'] in ('throw', 'return'):
+            out.append(x)
+        elif x['k'] == 'call' and fn.cfg is not None:
+            b = fn.cfg.block_of.get(x['i'])
+            if b is not None and fn.cfg.blocks[b].get('noreturn') and fn.cfg.blocks[b]['el'] and fn.cfg.blocks[b]['el'][-1] == x['i']:
+                out.append(x)
+    return out
+
+
+def edges_on(fn, text, polarity=True):
+    """Successor blocks taken when a branch whose deciding operand renders as `text` evaluates to `polarity`.
+    Works for operands of short-circuit conditions (each operand is its own CFG branch)."""
+    cfg = fn.cfg
+    out = []
+    for bid, b in cfg.blocks.items():
+        if b.get('tc') is None or len(b['succ']) != 2 or None in b['succ']:
+            continue
+        atom, neg = cfg.branch_atom(bid)
+        if not is_node(atom) or render(fn, atom) != text:
+            continue
+        want = polarity != neg
+        out.append((bid, b['succ'][0] if want else b['succ'][1]))
+    return out
+
+
+def edge_must_pass(fn, text, polarity, sites):
+    """(ok, n): from every branch edge on which `text` has value `polarity`, each path to the normal exit passes
+    through one of `sites`. n = number of such edges."""
+    cfg = fn.cfg
+    blocks = {cfg.node_block(s) for s in sites} - {None}
+    edges = edges_on(fn, text, polarity)
+    ok = True
+    for _src, dst in edges:
+        if dst in blocks:
+            continue
+        if dst == cfg.exit or cfg.exit in cfg.reach_from(dst, avoid=blocks):
+            ok = False
+    return ok, len(edges)
